@@ -542,7 +542,7 @@ def _exempt(ref, sig, det, text, c17_findings):
         return None
     # not Python: a statement that was Python in the input and is a command in the output only because
     # no name is known (ctx=set()); with every name known both parse alike
-    if all(ctx == "python" for _, _, ctx in sig) and not _state.get("names"):
+    if all(ctx == "python" for _, _, ctx in sig):
         names = set(dir(builtins))
         try:
             names |= {t.string for t in A.real_tokens(ref.src) if t.type == _state["xtok"].NAME}
@@ -1173,7 +1173,7 @@ def worker_cli(arg):
 def _replay_case(case):
     if "good" in case:
         return check_cli(case)[0]
-    res = check_source(case["src"], case.get("family", "replay"), reduce=False, tolerate=False, ctx=case.get("ctx") or "empty")
+    res = check_source(case["src"], case.get("family", "replay"), reduce=False, tolerate=False, ctx=case["ctx"] if case.get("ctx") is not None else "empty")
     if not res.failures:
         return None
     want = case.get("finding")
